@@ -405,3 +405,35 @@ pub fn h1_request(method: &str, target: &str, proxy_auth: Option<&[u8]>, extra: 
 pub fn peer_addr() -> SocketAddr {
     "198.51.100.23:40000".parse().unwrap()
 }
+
+/// Run `Core::listen` of a core built by `make(port)` on a free loopback port. Another process may
+/// grab the probed port before the endpoint binds it: retry with a new port until the listener
+/// really accepts connections (a check must not depend on winning that race).
+pub fn start_listening_core(
+    rt: &tokio::runtime::Runtime,
+    make: impl Fn(u16) -> Core,
+) -> (&'static Core, u16, tokio::task::JoinHandle<()>) {
+    for _attempt in 0..20 {
+        let port = {
+            let l = std::net::TcpListener::bind("127.0.0.1:0").unwrap();
+            l.local_addr().unwrap().port()
+        };
+        let core: &'static Core = Box::leak(Box::new(make(port)));
+        let task = rt.spawn(async move {
+            let _ = core.listen().await;
+        });
+        for _ in 0..300 {
+            if task.is_finished() {
+                break;
+            }
+            if std::net::TcpStream::connect(("127.0.0.1", port)).is_ok() {
+                // let the probe connection be processed before the scenario starts
+                std::thread::sleep(Duration::from_millis(300));
+                return (core, port, task);
+            }
+            std::thread::sleep(Duration::from_millis(10));
+        }
+        task.abort();
+    }
+    panic!("could not start a listening endpoint on any loopback port");
+}
